@@ -14,11 +14,11 @@ import (
 
 // entrySet: the request-path roots.
 type entries struct {
-	Handlers map[uint32]*ssa.Function // nfsHandlers table: procedure number -> handler
-	Mount    *ssa.Function            // handleMountCall
-	NFSCall  *ssa.Function            // handleNFSCall
+	Handlers   map[uint32]*ssa.Function // nfsHandlers table: procedure number -> handler
+	Mount      *ssa.Function            // handleMountCall
+	NFSCall    *ssa.Function            // handleNFSCall
 	HandleCall *ssa.Function
-	ConnLoop *ssa.Function
+	ConnLoop   *ssa.Function
 }
 
 // readDispatchTable reads the nfsHandlers composite literal from the package
@@ -138,9 +138,9 @@ func (e *entries) procEntries() []*ssa.Function {
 // ---------------------------------------------------------------------------
 
 type guardResult struct {
-	Guarded bool
-	Chain   []string // call chain from the violating entry down to the sink
-	Entry   *ssa.Function
+	Guarded   bool
+	Chain     []string // call chain from the violating entry down to the sink
+	Entry     *ssa.Function
 	Unreached bool // sink not reachable from any entry
 }
 
